@@ -472,6 +472,67 @@ example : expectedDump
      { responseBody := true, requestBody := true, output := some 3 }]
     [⟨[71], [1], [72], [98]⟩, ⟨[71], [], [72], [99]⟩] 3 = [1, 98, 99] := by decide
 
+/-! ### per request: a sequence of requests on one connection -/
+
+theorem selectedParts_foreign (o : Opts) (e : Exchange) (w : Writer)
+    (h : w ∉ Part.all.map o.resolve) : selectedParts o e w = [] := by
+  unfold selectedParts
+  have : (Part.all.filter fun p => o.enabled p && o.resolve p == w) = [] := by
+    apply List.filter_eq_nil_iff.mpr
+    intro p hp
+    simp only [Bool.and_eq_true, beq_iff_eq, not_and]
+    intro _ hw
+    exact h (List.mem_map.mpr ⟨p, hp, hw⟩)
+  simp [this]
+
+theorem expectedDump_foreign (ds : List Opts) (e : Exchange) (w : Writer)
+    (h : w ∉ writersOf ds) : expectedDump ds [e] w = [] := by
+  rw [selected_parts_exact]
+  simp only [List.flatMap_cons, List.flatMap_nil, List.append_nil]
+  induction ds with
+  | nil => simp
+  | cons o os ih =>
+    simp only [writersOf, List.flatMap_cons, List.mem_append, not_or] at h
+    simp only [List.flatMap_cons]
+    rw [selectedParts_foreign o e w h.1, ih (by simpa [writersOf] using h.2)]
+    simp
+
+/-- **per_request_exact**: in a sequence of requests (one keep-alive connection, one
+multiplexed connection) with per-request dumpers, a writer holds, request after request,
+exactly the selected parts of the requests whose dumpers resolve to it… -/
+theorem per_request_exact (steps : List ReqStep) (w : Writer) :
+    expectedDumpSeq steps w =
+      steps.flatMap fun s => s.1.flatMap fun o => selectedParts o s.2 w := by
+  unfold expectedDumpSeq
+  congr 1
+  funext s
+  rw [selected_parts_exact]
+  simp
+
+/-- **per_request_isolated**: …so a writer that only request `s`'s dumpers use holds exactly
+that request's selected parts: nothing of an earlier or later exchange on the same connection
+(the seeded defect "cached response-header reader" is a violation of this). -/
+theorem per_request_isolated (before after : List ReqStep) (s : ReqStep) (w : Writer)
+    (hb : ∀ t ∈ before, w ∉ writersOf t.1) (ha : ∀ t ∈ after, w ∉ writersOf t.1) :
+    expectedDumpSeq (before ++ s :: after) w = expectedDump s.1 [s.2] w := by
+  have nil_of : ∀ l : List ReqStep, (∀ t ∈ l, w ∉ writersOf t.1) → expectedDumpSeq l w = [] := by
+    intro l hl
+    unfold expectedDumpSeq
+    induction l with
+    | nil => simp
+    | cons t ts ih =>
+      simp only [List.flatMap_cons]
+      rw [expectedDump_foreign t.1 t.2 w (hl t (by simp)), ih (fun u hu => hl u (by simp [hu]))]
+      simp
+  have hB := nil_of before hb
+  have hA := nil_of after ha
+  unfold expectedDumpSeq at hB hA ⊢
+  simp only [List.flatMap_append, List.flatMap_cons, hB, hA, List.nil_append, List.append_nil]
+
+example : expectedDumpSeq
+    [([{ responseHeader := true, output := some 120 }], ⟨[71], [], [72], [98]⟩),
+     ([{ responseHeader := true, output := some 220 }], ⟨[71], [], [73], [99]⟩)] 120 = [72] := by decide
+
 /-! ### wrappers -/
 
 /-- **wrappers_transparent** (writers): for every sequence of writes, the results the caller
